@@ -1,7 +1,7 @@
 # C02 — stream layering targets the right documents and treats each independently.
 from .. import core, dgen, gen, hist, histprop
 
-CLI = ()
+CLI = ("bkl",)
 HARNESS = True
 ASSUMPTIONS = [
     "theorems are about Model.Parser.step/merge_document; tie to parser.go/document.go/merge.go is this run's history comparison",
@@ -10,6 +10,7 @@ ASSUMPTIONS = [
 RULE = ("base stream of 1-4 documents, then 1-3 layers of 1-3 documents whose parents are all documents of the previous layer "
         "(as file.setParents does); layer documents derived from a current document, with document-level $match (sub-pattern, {}, "
         "$invert, no match, null) on a third of them; Documents() compared after every MergeDocument, OutputDocuments at the end; "
+        "a part of the same streams is also written as layer files (a.<f>, a.b.<f>, ...) and run through the real binary against the file-layer model; "
         "non-trivial = some layer document was merged into >= 2 targets or used $match; distinct by hash")
 
 
@@ -97,9 +98,102 @@ def dist_fn(dist, c, a, b):
             dist["appended_docs"] = dist.get("appended_docs", 0) + 1
 
 
+def gen_case_files(rng):
+    """streams shaped for the file path: bigger bases, several documents per layer, appended documents in the middle"""
+    nbase = rng.pick([1, 2, 3, 3, 4, 5, 6])
+    ops, idx, prev = [], 0, []
+    for i in range(nbase):
+        d = {"kind": rng.pick(["a", "b"]), "id": i, "v": rng.pick([1, "s", [1], {"k": 1}])}
+        ops.append(["new", "b%d" % i, [], d])
+        prev.append(idx)
+        idx += 1
+    for layer in range(2 + rng.below(2)):
+        these = []
+        for j in range(1 + rng.below(3)):
+            d = {rng.pick(["n", "m", "t%d" % layer]): rng.pick([layer, "x", {"q": layer}, [layer]])}
+            r = rng.below(8)
+            if r < 2:
+                d["$match"] = None
+                d["name"] = "extra%d_%d" % (layer, j)
+            elif r < 3:
+                d["$match"] = {"kind": rng.pick(["a", "b"])}
+            elif r < 4:
+                d["$match"] = {"id": rng.below(nbase)}
+            ops.append(["new", "l%d_%d" % (layer, j), list(prev), d])
+            these.append(idx)
+            idx += 1
+        prev = these
+    return ["history", None, ops]
+
+
+def layers_of(case):
+    """the history as layer files: base stream, then one file per layer (parents = all documents of the previous file)"""
+    layers, cur, cur_par = [], [], None
+    for o in case[2]:
+        if o[0] != "new":
+            continue
+        par = tuple(o[2])
+        if cur and par != cur_par:
+            layers.append(cur)
+            cur = []
+        cur_par = par
+        cur.append(o[3])
+    if cur:
+        layers.append(cur)
+    return layers
+
+
+def run_files(ctx, cases, rng):
+    """the same streams applied through files and the real binary, compared with the file-layer model"""
+    import os
+    import shutil
+    from . import c03
+    fmts, _ = hist.formats_from_source()
+    names = ["a", "a.b", "a.b.c", "a.b.c.d", "a.b.c.d.e"]
+    jobs = []
+    for ci, c in enumerate(cases):
+        ls = layers_of(c)
+        if len(ls) > len(names):
+            continue
+        files = {}
+        r = rng.fork("f%d" % ci)
+        for li, docs in enumerate(ls):
+            f = r.pick(["json", "yaml"]) if any(gen.has_null(d) or not isinstance(d, dict) for d in docs) else r.pick(["json", "yaml", "toml"])
+            files["%s.%s" % (names[li], f)] = ("reg", docs)
+        top = sorted(files, key=len)[-1]
+        jobs.append((ci, {"files": files, "opts": {"inputs": [top], "f": "json", "P": False}, "kind": "stream"}))
+
+    def one(j):
+        ci, lay = jobs[j]
+        d = os.path.join(ctx.work, "fs%d" % j)
+        c03.write_layout(d, lay, rng.fork("w%d" % j))
+        res = c03.run_bkl(ctx, d, lay["opts"])
+        shutil.rmtree(d, ignore_errors=True)
+        return res
+    results = core.pmap(one, range(len(jobs)))
+    mo = ctx.model(c03.fill_tables(ctx, [c03.model_case(l, fmts) for _, l in jobs]))
+    bad = 0
+    for (ci, lay), res, m in zip(jobs, results, mo):
+        why = c03.judge(lay, res, m)
+        if why and len(ctx.violations) < 5:
+            bad += 1
+            ctx.violations.append({"name": "files-%d" % ci, "property": "C02", "kind": "failing-input",
+                                   "why": "through layer files: " + why, "layout": {a: [b[0], core.to_jsonable(b[1])] for a, b in lay["files"].items()},
+                                   "opts": lay["opts"], "class": "c02-disagreement"})
+    return len(jobs)
+
+
 def run(ctx):
     n = 1200 if ctx.tier == "quick" else 25000
-    return histprop.run_history_property(ctx, "C02", gen_case, n, RULE, nontrivial, dist_fn=dist_fn)
+    stats = histprop.run_history_property(ctx, "C02", gen_case, n, RULE, nontrivial, dist_fn=dist_fn)
+    rng = core.Rng(ctx.seed)
+    nf = 300 if ctx.tier == "quick" else 5000
+    cases = [(gen_case if i % 2 else gen_case_files)(rng.fork("case%d" % i)) for i in range(nf)]
+    done = run_files(ctx, cases, rng)
+    stats["distribution"]["through_layer_files"] = done
+    stats["evaluations"] += done
+    stats["disagreements_checked"] = len(ctx.violations)
+    return stats
 
 
 def replay(ctx, payload):
